@@ -199,3 +199,41 @@ PROPS['C09'] = {
     'exhaustive_scope': 'all (N, K, M, i) for N <= 8; lattice above',
     'assumptions': COMMON_ASSUME + ["an over-read that is then discarded produces the right answer and is invisible to this oracle: the thorough tier repeats the enumeration under AddressSanitizer / Miri as per-execution monitors"],
 }
+
+PROPS['C13'] = {
+    'level': 'exploration',
+    'technique': 'bounded exhaustive enumeration of all pairs of arrays over three-letter alphabets (N <= 4) and of difference-position families (larger N) on the real code against the slices of the same elements, with a recording Hasher',
+    'parts': [engine_part('cmp-hash-debug', 'e_misc', 'C13', shards_quick=1)],
+    'rule': ("for N in 0..=4 every pair of arrays over a three-letter alphabet (sum 3^(2N) = 7381 pairs per element type) for u8 {0,1,255}, i32 {-1,0,1}, f64 {NaN,0.0,1.5}, f64 {-0.0,0.0,NaN}, String {'', 'a', 'b'} and nested GenericArray<u8,U2>; a case is one left "
+             "operand compared with every right operand: ==, !=, partial_cmp, <, <=, >, >= and (for Ord types) cmp must equal the slices'; Debug under {:?} {:#?} {:5?} {:.1?} {:08.3?} {:x?} {:#X?} {:<7?} {:+?} must equal the slice's; the byte-for-byte "
+             "write sequence a recording Hasher receives from array.hash() must equal the slice's, and HashMap/BTreeMap keyed by arrays must be found through &[T] via Borrow. For N in {5,8,16,33,100}: equal / differ only at p for every p / differ at p and "
+             "at a later q with the opposite sign (every q for N <= 33), with NaN variants. Non-trivial = N > 0."),
+    'exhaustive': True,
+    'exhaustive_scope': 'all pairs over the alphabets for N <= 4; position families above',
+    'assumptions': COMMON_ASSUME,
+}
+PROPS['C17'] = {
+    'level': 'fault_enumeration',
+    'technique': 'exhaustive enumeration of the deserialisation environment: scripted Deserializer/SeqAccess (delivered count x up-front hint x later hints x element error at every index) plus real formats (JSON text, bincode, serde_json::Value) and a recording Serializer, on the real code',
+    'parts': [engine_part('serde', 'e_misc', 'C17', shards_quick=1)],
+    'rule': ("N in {0..8,16,33}. Scripted source: delivered element count c in 0..=N+2 x up-front size hint in {none, exact, too small (N-1), too large (N+1), 'N' regardless of what is delivered} x later hints in {truthful remaining, none} x "
+             "(no error | element k fails to parse, for every k < c), element type drop-tracked. Oracle: deserialize asks for a tuple of exactly N; Ok iff c == N and no element < N failed (hint none/exact/N), and then element i is the i-th element read; "
+             "c != N or a failing element < min(N, c) must be an error; every element read is dropped exactly once afterwards; the sequence is never polled after it reported its end. The documented exclusion (a source reporting 'nothing left' while "
+             "holding elements: only N = 0 with an up-front hint of 0) is not generated. Real formats per N: JSON text equals the N-element list, bincode equals the bare concatenation of the element encodings (a byte array is exactly its bytes), "
+             "serde_json::Value is an N-array, all round-trip (u8/u32/String); JSON lists and Values of every count 0..=N+2 are accepted iff count == N; tracked elements with a bad element at every index and truncated bincode are rejected with "
+             "the already-read elements dropped once. Recording Serializer: serialize_tuple(N), N elements in index order, end. Non-trivial = N > 0 or c > 0."),
+    'exhaustive': True,
+    'exhaustive_scope': 'the listed finite product',
+    'assumptions': COMMON_ASSUME + ["serde, serde_json 1.0 and bincode 1.3 from the offline cargo cache are trusted as the real formats"],
+}
+PROPS['C19'] = {
+    'level': 'exploration',
+    'technique': 'bounded exhaustive enumeration of (N, element type, prior contents) for zeroize and of (N, element type) for the constant default, evaluated by the compiler (const/static items) and at run time, on the real code',
+    'parts': [engine_part('zeroize-constdefault', 'e_misc', 'C19', shards_quick=1)],
+    'rule': ("every N in 0..=65 and {100,127,128,255,256,257,1000,1023,1024} (every even/odd storage shape to depth 6 complete, boundary shapes to depth 10). zeroize: element in {u8, u64, [u8;3], GenericArray<u8,U3>, Probe{a:u8,b:u32}, Wipe7 (zeroizes to the "
+             "non-zero value 7)} x prior contents in {all 0xFF, index-dependent, already zero}; every element must equal its zeroized value. Constant default: element in {u8, u64, Probe (DEFAULT a=1, b=0xDEADBEEF), GenericArray<Probe,U3>, (u8,Probe)}; "
+             "const_default() and DEFAULT evaluated in a const item, a static item and at run time must all be N copies of T::DEFAULT and equal Default::default(). Non-trivial = N > 0."),
+    'exhaustive': True,
+    'exhaustive_scope': 'the listed finite product',
+    'assumptions': COMMON_ASSUME + ["zeroize 1.x and const-default 1.0 from the offline cargo cache are trusted"],
+}
